@@ -25,6 +25,8 @@ structure St where
   evs : List Ev := []                  -- atomic accesses performed, in order
   drops : List (Nat × Nat) := []       -- spans `[lo, hi)` of elements destroyed in place, in order
   clones : List Nat := []              -- positions whose element was cloned eagerly (`Option::cloned`), in order
+  yld : Nat := 0                       -- wrapper only: the `yielded` counter (location `Y`; `ctr` is then `R`)
+  completed : Bool := false            -- wrapper only: the `completed` flag (location `C`)
   deriving Repr, Inhabited
 
 inductive Res (α : Type) where
@@ -60,6 +62,19 @@ structure AtomicH where
 structure CounterSelf where
   current : AtomicH := {}
   deriving Repr, Inhabited
+
+/-- an `AtomicBool` (the wrapper's `completed` flag) -/
+structure AtomicBoolH where
+  loc : Loc := .C
+  deriving Repr, Inhabited
+
+/-- `ConIterOfIter` without its wrapped iterator: the three atomics and the exact length claimed at construction -/
+structure IterSelf where
+  initial_len : Option Nat
+  reserved_counter : CounterSelf := { current := { loc := .R } }
+  yielded_counter : CounterSelf := { current := { loc := .Y } }
+  completed : AtomicBoolH := {}
+  deriving Repr
 
 structure SliceObj where
   len : Nat
@@ -278,14 +293,35 @@ instance : MCopied Span := ⟨fun s => pure s⟩
 
 /-! ## atomics (the one position counter of the iterator) -/
 
+/-- the word behind a `usize` atomic: `Y` is the wrapper's `yielded` counter, every other location the position counter -/
+def St.get (st : St) (l : Loc) : Nat := match l with | .Y => st.yld | _ => st.ctr
+def St.set (st : St) (l : Loc) (v : Nat) : St := match l with | .Y => { st with yld := v } | _ => { st with ctr := v }
+
+@[simp] theorem St.get_ctr (st : St) (k : Nat) : st.get (.ctr k) = st.ctr := rfl
+@[simp] theorem St.set_ctr (st : St) (k v : Nat) : st.set (.ctr k) v = { st with ctr := v } := rfl
+@[simp] theorem St.get_R (st : St) : st.get .R = st.ctr := rfl
+@[simp] theorem St.set_R (st : St) (v : Nat) : st.set .R v = { st with ctr := v } := rfl
+@[simp] theorem St.get_Y (st : St) : st.get .Y = st.yld := rfl
+@[simp] theorem St.set_Y (st : St) (v : Nat) : st.set .Y v = { st with yld := v } := rfl
+
 def m_fetch_add (h : AtomicH) (n : Nat) (o : Ord) : M Nat := fun st =>
-  .ok st.ctr { st with ctr := wrapAdd st.ctr n, evs := st.evs ++ [.faa h.loc o st.ctr n] }
-def m_load (h : AtomicH) (o : Ord) : M Nat := fun st =>
-  .ok st.ctr { st with evs := st.evs ++ [.ld h.loc o st.ctr] }
-def m_store (h : AtomicH) (v : Nat) (o : Ord) : M Unit := fun st =>
-  .ok () { st with ctr := v, evs := st.evs ++ [.st h.loc o v] }
+  .ok (st.get h.loc) { (st.set h.loc (wrapAdd (st.get h.loc) n)) with evs := st.evs ++ [.faa h.loc o (st.get h.loc) n] }
 def m_swap (h : AtomicH) (v : Nat) (o : Ord) : M Nat := fun st =>
-  .ok st.ctr { st with ctr := v, evs := st.evs ++ [.swp h.loc o st.ctr v] }
+  .ok (st.get h.loc) { (st.set h.loc v) with evs := st.evs ++ [.swp h.loc o (st.get h.loc) v] }
+
+class MLoad (H : Type) (V : outParam Type) where
+  m_load : H → Ord → M V
+export MLoad (m_load)
+class MStore (H : Type) (V : outParam Type) where
+  m_store : H → V → Ord → M Unit
+export MStore (m_store)
+
+instance : MLoad AtomicH Nat := ⟨fun h o st => .ok (st.get h.loc) { st with evs := st.evs ++ [.ld h.loc o (st.get h.loc)] }⟩
+instance : MStore AtomicH Nat := ⟨fun h v o st => .ok () { (st.set h.loc v) with evs := st.evs ++ [.st h.loc o v] }⟩
+instance : MLoad AtomicBoolH Bool :=
+  ⟨fun h o st => .ok st.completed { st with evs := st.evs ++ [.ld h.loc o (if st.completed then 1 else 0)] }⟩
+instance : MStore AtomicBoolH Bool :=
+  ⟨fun h v o st => .ok () { st with completed := v, evs := st.evs ++ [.st h.loc o (if v then 1 else 0)] }⟩
 
 /-- every `BufferedChunk::chunk_size` returns the stored chunk size (each is also translated: `Buf*.chunk_size`) -/
 def BufAny.chunk_size (b : BufSelf) : M Nat := pure b.chunk_size
